@@ -271,3 +271,579 @@ Proof.
     assert (Eds : dt = sum_amt dsel) by (rewrite ED3, ED2; lia).
     lia.
 Qed.
+
+(* ---------- indexed: errors ---------- *)
+
+Lemma takeN_app_exact {A} (a b : list A) n : lenN a = n -> takeN n (a ++ b) = a.
+Proof.
+  revert n. induction a as [|x a IH]; intros n H; cbn [lenN] in H.
+  - subst n. cbn [app]. destruct b; reflexivity.
+  - cbn [app takeN]. destruct (N.eqb_spec n 0); [lia|]. f_equal. apply IH. lia.
+Qed.
+
+Theorem indexed_error_alg idx total max partial excl r e :
+  sum_amt idx <= u128max -> max <= u16max -> total <= u128max ->
+  select_coins_to_spend idx total max partial excl r = CErr e ->
+  (e = 1 \/ e = 2) /\
+  sum_amt (takeN max (filter (ne excl) (rev idx))) < total /\
+  (partial = true -> sum_amt (takeN max (filter (ne excl) (rev idx))) = 0).
+Proof.
+  intros Hsum Hmax Ht H. unfold select_coins_to_spend in H.
+  destruct ((total =? 0) || (max =? 0)) eqn:E0; [discriminate|].
+  apply orb_false_iff in E0. destruct E0 as [Et Em].
+  destruct (big_coins (rev idx) (sat_mul u128max total 2) max excl) as [[bt big] more] eqn:Eb.
+  unfold big_coins in Eb.
+  assert (Hsr : sum_amt (rev idx) = sum_amt idx).
+  { clear. induction idx as [|x l IH]; [reflexivity|]. cbn [rev]. rewrite sum_app, IH, !sum_cons. change (sum_amt []) with 0. lia. }
+  assert (Hb0 : 0 + sum_amt (rev idx) <= u128max) by (rewrite Hsr; lia).
+  destruct (scu_spec _ _ _ _ _ _ _ _ _ Hb0 Eb)
+    as (preB & postB & EB1 & EB2 & EB3 & EB4 & EB5 & EB6).
+  cbn [app] in EB2. specialize (EB4 ltac:(cbn; lia)).
+  assert (Ebs : bt = sum_amt big) by (rewrite EB3, EB2; lia).
+  destruct ((bt =? 0) || ((bt <? total) && negb partial)) eqn:Echk.
+  - (* the error branch *)
+    assert (He : e = 1 \/ e = 2).
+    { destruct ((max <=? lenN big) && more); inversion H; tauto. }
+    split; [exact He|].
+    assert (Hcond : bt = 0 \/ (bt < total /\ partial = false)).
+    { apply orb_true_iff in Echk. destruct Echk as [E|E]; [left; lia|].
+      apply andb_true_iff in E. destruct E as [E1 E2]. right. split; [lia|]. now destruct partial. }
+    assert (Htake : sum_amt (takeN max (filter (ne excl) (rev idx))) = bt).
+    { rewrite EB1, filter_app, <- EB2. destruct more.
+      - destruct (EB6 eq_refl) as (c & post' & Ep & Hc & Hstop).
+        destruct Hstop as [Hfull|Hadj].
+        + rewrite takeN_app_exact by lia. now symmetry.
+        + exfalso. unfold sat_mul in Hadj. destruct Hcond as [Hc0|[Hc1 _]]; lia.
+      - rewrite (EB5 eq_refl). cbn [filter]. rewrite app_nil_r, takeN_all by lia. now symmetry. }
+    rewrite Htake. destruct Hcond as [Hc0|[Hc1 Hc2]]; split; try lia; intros Hp; congruence.
+  - apply orb_false_iff in Echk. destruct Echk as [Ebt0 _].
+    destruct (last_entry big) as [lb|] eqn:Elast.
+    + destruct (N.ltb_spec u16max (lenN big)); [lia|].
+      destruct (dust_coins idx lb (max_dust_count max (lenN big) 5 r) excl) as [[dt dust] dm]. discriminate.
+    + assert (Hbn : big = []).
+      { destruct big as [|x b]; [reflexivity|]. destruct (last_entry_app (x :: b)) as (a & k & _ & Hl); congruence. }
+      rewrite Hbn in Ebs. change (sum_amt []) with 0 in Ebs. exfalso. lia.
+Qed.
+
+(* ---------- largest_first ---------- *)
+
+Lemma lf_loop_ok target max partial : forall inputs collected coins l,
+  collected + sum_amt inputs <= u128max ->
+  lf_loop inputs target max partial collected coins = COk l ->
+  exists sel rest, inputs = sel ++ rest /\ l = coins ++ sel /\
+    (lenN coins <= max -> lenN l <= max) /\
+    (partial = false -> target <= collected + sum_amt sel).
+Proof.
+  assert (Hend : forall collected coins l, lf_end target partial collected coins = COk l ->
+                 l = coins /\ (partial = false -> target <= collected)).
+  { intros collected coins l H. unfold lf_end in H. destruct (N.ltb_spec collected target).
+    - destruct (partial && (0 <? collected)) eqn:E; [|discriminate]. inversion H.
+      split; [reflexivity|]. intros Hp. subst partial. discriminate.
+    - inversion H. split; [reflexivity | intros; lia]. }
+  induction inputs as [|c tl IH]; intros collected coins l Hb H; cbn [lf_loop] in H.
+  - apply Hend in H. destruct H as [-> Ht]. exists [], []. change (sum_amt []) with 0.
+    split; [reflexivity|]. split; [now rewrite app_nil_r|]. split; [tauto|].
+    intros Hp. specialize (Ht Hp). lia.
+  - rewrite sum_cons in Hb. destruct (target <=? collected) eqn:Et.
+    + apply Hend in H. destruct H as [-> Ht]. exists [], (c :: tl). change (sum_amt []) with 0.
+      split; [reflexivity|]. split; [now rewrite app_nil_r|]. split; [tauto|].
+      intros Hp. specialize (Ht Hp). lia.
+    + destruct (N.leb_spec max (lenN coins)).
+      * destruct partial; [|discriminate]. inversion H; subst. exists [], (c :: tl).
+        split; [reflexivity|]. split; [now rewrite app_nil_r|]. split; [tauto | discriminate].
+      * rewrite u128sat_exact in H by lia.
+        destruct (IH (collected + eamt c) (coins ++ [c]) l ltac:(lia) H) as (sel & rest & E1 & E2 & E3 & E4).
+        exists (c :: sel), rest. subst tl. rewrite <- app_assoc in E2. cbn [app] in E2.
+        rewrite sum_cons. repeat split; try assumption.
+        -- intros _. apply E3. rewrite lenN_app. cbn [lenN]. lia.
+        -- intros Hp. specialize (E4 Hp). lia.
+Qed.
+
+Lemma lf_loop_err target max partial : forall inputs collected coins e,
+  collected + sum_amt inputs <= u128max ->
+  lenN coins <= max -> collected = sum_amt coins ->
+  lf_loop inputs target max partial collected coins = CErr e ->
+  (e = 1 \/ e = 2) /\ sum_amt (takeN max (coins ++ inputs)) < target /\
+  (partial = true -> sum_amt (takeN max (coins ++ inputs)) = 0).
+Proof.
+  assert (Hend : forall collected coins e, lf_end target partial collected coins = CErr e ->
+                 e = 1 /\ collected < target /\ (partial = true -> collected = 0)).
+  { intros collected coins e H. unfold lf_end in H. destruct (N.ltb_spec collected target); [|discriminate].
+    destruct (partial && (0 <? collected)) eqn:E; [discriminate|]. inversion H.
+    split; [reflexivity|]. split; [lia|]. intros Hp. subst partial. cbn [andb] in E. lia. }
+  induction inputs as [|c tl IH]; intros collected coins e Hb Hl Hc H; cbn [lf_loop] in H.
+  - apply Hend in H. destruct H as (-> & H1 & H2). rewrite app_nil_r, takeN_all by lia.
+    rewrite <- Hc. repeat split; try tauto; try lia.
+  - rewrite sum_cons in Hb. destruct (N.leb_spec target collected).
+    + apply Hend in H. lia.
+    + destruct (N.leb_spec max (lenN coins)).
+      * destruct partial; [discriminate|]. inversion H. rewrite takeN_app_exact by lia.
+        rewrite <- Hc. repeat split; try tauto; try lia; try discriminate.
+      * rewrite u128sat_exact in H by lia.
+        replace (coins ++ c :: tl) with ((coins ++ [c]) ++ tl) by (rewrite <- app_assoc; reflexivity).
+        apply (IH (collected + eamt c) (coins ++ [c]) e ltac:(lia)); [rewrite lenN_app; cbn [lenN]; lia | | exact H].
+        rewrite sum_app, sum_cons. change (sum_amt []) with 0. lia.
+Qed.
+
+Lemma insert_desc_perm x l : Permutation (insert_desc x l) (x :: l).
+Proof.
+  induction l as [|y tl IH]; cbn [insert_desc]; [reflexivity|].
+  destruct (eamt y <? eamt x); [reflexivity|].
+  rewrite IH. apply perm_swap.
+Qed.
+
+Lemma sort_desc_perm l : Permutation (sort_desc l) l.
+Proof.
+  unfold sort_desc.
+  assert (H : forall acc, Permutation (fold_left (fun acc x => insert_desc x acc) l acc) (acc ++ l)).
+  { induction l as [|x tl IH]; intros acc; cbn [fold_left]; [now rewrite app_nil_r|].
+    rewrite IH, insert_desc_perm. cbn [app]. apply Permutation_middle. }
+  apply (H []).
+Qed.
+
+Lemma sum_perm a b : Permutation a b -> sum_amt a = sum_amt b.
+Proof.
+  induction 1 as [|x a b _ IH|x y a|a b c _ IH1 _ IH2]; rewrite ?sum_cons; try lia; reflexivity.
+Qed.
+
+Lemma AlgSpec_of_prefix stream sorted sel rest target max partial :
+  Permutation sorted stream -> NoDup (map eid stream) -> sorted = sel ++ rest ->
+  lenN sel <= max -> (partial = false -> target <= sum_amt sel) ->
+  AlgSpec stream target max partial sel.
+Proof.
+  intros Hp Hnd E Hl Ht. unfold AlgSpec. repeat split; try assumption.
+  - intros x Hx. eapply Permutation_in; [exact Hp|]. rewrite E. apply in_or_app. now left.
+  - assert (Hs : NoDup (map eid sorted)).
+    { eapply Permutation_NoDup; [|exact Hnd]. apply Permutation_map. now symmetry. }
+    rewrite E in Hs. now apply NoDup_map_app_l in Hs.
+Qed.
+
+Theorem largest_first_sound_alg stream target max partial l :
+  NoDup (map eid stream) -> sum_amt stream <= u128max ->
+  largest_first stream target max partial = COk l ->
+  AlgSpec stream target max partial l.
+Proof.
+  intros Hnd Hsum H. unfold largest_first in H.
+  pose proof (sort_desc_perm stream) as Hp.
+  assert (Hb : 0 + sum_amt (sort_desc stream) <= u128max) by (rewrite (sum_perm _ _ Hp); lia).
+  destruct (lf_loop_ok _ _ _ _ _ _ _ Hb H) as (sel & rest & E1 & E2 & E3 & E4).
+  cbn [app] in E2. subst l.
+  apply (AlgSpec_of_prefix stream (sort_desc stream) sel rest); try assumption.
+  all: try (apply E3; cbn; lia).
+  all: try (intros Hpf; specialize (E4 Hpf); lia).
+Qed.
+
+Theorem largest_first_error_alg stream target max partial e :
+  sum_amt stream <= u128max ->
+  largest_first stream target max partial = CErr e ->
+  (e = 1 \/ e = 2) /\ topk_sum max stream < target /\ (partial = true -> topk_sum max stream = 0).
+Proof.
+  intros Hsum H. unfold largest_first in H. unfold topk_sum.
+  pose proof (sort_desc_perm stream) as Hp.
+  assert (Hb : 0 + sum_amt (sort_desc stream) <= u128max) by (rewrite (sum_perm _ _ Hp); lia).
+  apply (lf_loop_err _ _ _ _ _ _ _ Hb) in H; [exact H | cbn; lia | reflexivity].
+Qed.
+
+(* ---------- random_improve ---------- *)
+
+Lemma ri_loop_spec target upper : forall inputs collected coins c' l,
+  collected + sum_amt inputs <= u128max ->
+  ri_loop inputs target upper collected coins = (c', l) ->
+  exists sel rest, inputs = sel ++ rest /\ l = coins ++ sel /\ c' = collected + sum_amt sel.
+Proof.
+  induction inputs as [|c tl IH]; intros collected coins c' l Hb H; cbn [ri_loop] in H.
+  - inversion H; subst. exists [], []. change (sum_amt []) with 0. split; [reflexivity|]. split; [now rewrite app_nil_r | lia].
+  - rewrite sum_cons in Hb.
+    assert (Hstop : (collected, coins) = (c', l) ->
+      exists sel rest, c :: tl = sel ++ rest /\ l = coins ++ sel /\ c' = collected + sum_amt sel).
+    { intros E. inversion E; subst. exists [], (c :: tl). change (sum_amt []) with 0.
+      split; [reflexivity|]. split; [now rewrite app_nil_r | lia]. }
+    assert (Hgo : ri_loop tl target upper (u128sat collected (eamt c)) (coins ++ [c]) = (c', l) ->
+      exists sel rest, c :: tl = sel ++ rest /\ l = coins ++ sel /\ c' = collected + sum_amt sel).
+    { intros E. rewrite u128sat_exact in E by lia.
+      destruct (IH (collected + eamt c) (coins ++ [c]) c' l ltac:(lia) E) as (sel & rest & E1 & E2 & E3).
+      exists (c :: sel), rest. subst tl. rewrite <- app_assoc in E2. cbn [app] in E2.
+      rewrite sum_cons. repeat split; try assumption. lia. }
+    destruct (target <=? collected).
+    + destruct ((u64max <=? collected) || (upper <? eamt c)); [now apply Hstop|].
+      destruct (abs_diff target (collected - target) <=?
+                abs_diff target (u128sat (collected - target) (eamt c))); [now apply Hstop | now apply Hgo].
+    + now apply Hgo.
+Qed.
+
+Theorem random_improve_sound_alg stream shuffled target max partial l :
+  Permutation shuffled stream ->
+  NoDup (map eid stream) -> sum_amt stream <= u128max ->
+  random_improve stream shuffled target max partial = COk l ->
+  AlgSpec stream target max partial l.
+Proof.
+  intros Hp Hnd Hsum H. unfold random_improve in H.
+  destruct (ri_loop (takeN max shuffled) target (sat_mul u128max target 2) 0 []) as [collected coins] eqn:Er.
+  destruct (N.ltb_spec collected target).
+  - now apply largest_first_sound_alg.
+  - inversion H; subst l. clear H.
+    pose proof (takeN_dropN shuffled max) as Esh.
+    assert (Hb : 0 + sum_amt (takeN max shuffled) <= u128max).
+    { rewrite <- (sum_perm _ _ Hp), <- Esh, sum_app in Hsum. lia. }
+    destruct (ri_loop_spec _ _ _ _ _ _ _ Hb Er) as (sel & rest & E1 & E2 & E3).
+    cbn [app] in E2. subst coins.
+    eapply (AlgSpec_of_prefix stream shuffled sel (rest ++ dropN max shuffled)); try assumption.
+    + rewrite app_assoc, <- E1. now symmetry.
+    + pose proof (lenN_takeN shuffled max) as Hl. rewrite E1, lenN_app in Hl. lia.
+    + intros _. lia.
+Qed.
+
+Theorem random_improve_error_alg stream shuffled target max partial e :
+  sum_amt stream <= u128max ->
+  random_improve stream shuffled target max partial = CErr e ->
+  (e = 1 \/ e = 2) /\ topk_sum max stream < target /\ (partial = true -> topk_sum max stream = 0).
+Proof.
+  intros Hsum H. unfold random_improve in H.
+  destruct (ri_loop (takeN max shuffled) target (sat_mul u128max target 2) 0 []) as [collected coins].
+  destruct (collected <? target); [|discriminate]. now apply largest_first_error_alg.
+Qed.
+
+(* ---------- from the world (unspent resources) to the streams ---------- *)
+
+Definition world_sum (world : list res) : N := fold_right (fun r s => ramount r + s) 0 world.
+
+Definition WF (world : list res) : Prop :=
+  NoDup (map rid world) /\ world_sum world <= u128max.
+
+(* e is an unspent resource the query may use: right owner, right asset (messages: base
+   asset only, not retryable), not excluded *)
+Definition Adm (world : list res) (owner asset base : N) (excl : list N) (e : entry) : Prop :=
+  exists r, In r world /\ to_entry r = e /\ admissible_res owner asset base r = true /\
+            memN (rid r) excl = false.
+
+Definition SelSpec (world : list res) (owner asset base target max : N) (partial : bool)
+           (excl : list N) (l : list entry) : Prop :=
+  Forall (Adm world owner asset base excl) l /\ NoDup (map eid l) /\ lenN l <= max /\
+  (partial = false -> target <= sum_amt l).
+
+Lemma map_eid_to_entry l : map eid (map to_entry l) = map rid l.
+Proof. rewrite map_map. reflexivity. Qed.
+
+Lemma sum_to_entry l : sum_amt (map to_entry l) = world_sum l.
+Proof. induction l as [|r l IH]; [reflexivity|]. cbn [map]. rewrite sum_cons. cbn [world_sum fold_right]. fold (world_sum l). rewrite IH. reflexivity. Qed.
+
+Lemma wsum_app a b : world_sum (a ++ b) = world_sum a + world_sum b.
+Proof. rewrite <- !sum_to_entry, map_app, sum_app. reflexivity. Qed.
+
+Lemma wsum_filter2 (f g : res -> bool) l :
+  (forall x, f x = true -> g x = false) ->
+  world_sum (filter f l) + world_sum (filter g l) <= world_sum l.
+Proof.
+  intros H. induction l as [|x l IH]; [cbn; lia|]. cbn [filter].
+  destruct (f x) eqn:Ef.
+  - rewrite (H x Ef). cbn [world_sum fold_right]. fold (world_sum (filter f l)). fold (world_sum l). lia.
+  - destruct (g x); cbn [world_sum fold_right]; fold (world_sum (filter g l)); fold (world_sum l); lia.
+Qed.
+
+Lemma wsum_filter (f : res -> bool) l : world_sum (filter f l) <= world_sum l.
+Proof. pose proof (wsum_filter2 f (fun _ => false) l ltac:(reflexivity)). lia. Qed.
+
+Lemma NoDup_map_inj {A B} (f : A -> B) l x y :
+  NoDup (map f l) -> In x l -> In y l -> f x = f y -> x = y.
+Proof.
+  induction l as [|z l IH]; [intros _ []|]. cbn [map]. intros H Hx Hy E. inversion H as [|? ? Hn Hd]; subst.
+  destruct Hx as [->|Hx], Hy as [->|Hy]; try reflexivity.
+  - exfalso. apply Hn. rewrite E. now apply in_map.
+  - exfalso. apply Hn. rewrite <- E. now apply in_map.
+  - now apply IH.
+Qed.
+
+Lemma coins_stream_adm world owner asset base excl e :
+  In e (coins_stream world owner asset base excl) -> Adm world owner asset base excl e.
+Proof.
+  unfold coins_stream. intros H. apply in_map_iff in H. destruct H as (r & Er & Hr).
+  apply in_app_or in Hr. destruct Hr as [Hr|Hr].
+  - apply filter_In in Hr. destruct Hr as [Hin Hc]. rewrite !andb_true_iff in Hc.
+    destruct Hc as [[[Hk Ho] Hx] Ha]. exists r. repeat split; try assumption.
+    + unfold admissible_res. rewrite Hk, Ho, Ha. reflexivity.
+    + now destruct (memN (rid r) excl).
+  - destruct (asset =? base) eqn:Eb; [|destruct Hr].
+    apply filter_In in Hr. destruct Hr as [Hin Hc]. rewrite !andb_true_iff in Hc.
+    destruct Hc as [[[Hk Ho] Hx] Hrt]. exists r. repeat split; try assumption.
+    + unfold admissible_res. destruct (rkind r =? 0); [discriminate|]. rewrite Ho, Eb, Hrt. reflexivity.
+    + now destruct (memN (rid r) excl).
+Qed.
+
+Lemma coins_stream_nodup world owner asset base excl :
+  NoDup (map rid world) -> NoDup (map eid (coins_stream world owner asset base excl)).
+Proof.
+  intros H. unfold coins_stream. rewrite map_eid_to_entry.
+  apply NoDup_map_app_intro.
+  - now apply NoDup_map_filter.
+  - destruct (asset =? base); [now apply NoDup_map_filter | constructor].
+  - intros x y Hx Hy E. destruct (asset =? base); [|destruct Hy].
+    apply filter_In in Hx. apply filter_In in Hy. destruct Hx as [Hx Hfx], Hy as [Hy Hfy].
+    assert (x = y) by (eapply NoDup_map_inj; eassumption). subst y.
+    rewrite !andb_true_iff in Hfx, Hfy. destruct Hfx as [[[Hk _] _] _], Hfy as [[[Hk' _] _] _].
+    rewrite Hk in Hk'. discriminate.
+Qed.
+
+Lemma coins_stream_sum world owner asset base excl :
+  sum_amt (coins_stream world owner asset base excl) <= world_sum world.
+Proof.
+  unfold coins_stream. rewrite sum_to_entry, wsum_app.
+  destruct (asset =? base).
+  - apply wsum_filter2. intros x Hx. rewrite !andb_true_iff in Hx. destruct Hx as [[[Hk _] _] _].
+    rewrite Hk. reflexivity.
+  - change (world_sum []) with 0. pose proof (wsum_filter (fun r => (rkind r =? 0) && (rowner r =? owner) && negb (memN (rid r) excl) && (rasset r =? asset)) world). lia.
+Qed.
+
+Lemma insert_key_perm x l : Permutation (insert_key x l) (x :: l).
+Proof.
+  induction l as [|y tl IH]; cbn [insert_key]; [reflexivity|].
+  destruct (key_leb x y); [reflexivity|]. rewrite IH. apply perm_swap.
+Qed.
+
+Lemma sort_key_perm l : Permutation (sort_key l) l.
+Proof.
+  induction l as [|x l IH]; [reflexivity|]. unfold sort_key. cbn [fold_right]. fold (sort_key l).
+  rewrite insert_key_perm. now constructor.
+Qed.
+
+Lemma index_stream_perm world owner asset base :
+  Permutation (index_stream world owner asset base)
+              (map to_entry (filter (admissible_res owner asset base) world)).
+Proof. apply sort_key_perm. Qed.
+
+Lemma index_stream_adm world owner asset base excl e :
+  In e (filter (ne excl) (index_stream world owner asset base)) -> Adm world owner asset base excl e.
+Proof.
+  intros H. apply filter_In in H. destruct H as [Hin Hne].
+  apply (Permutation_in _ (index_stream_perm world owner asset base)) in Hin.
+  apply in_map_iff in Hin. destruct Hin as (r & Er & Hr). apply filter_In in Hr.
+  exists r. repeat split; try tauto. subst e. unfold ne in Hne. cbn [eid to_entry fst] in Hne.
+  now destruct (memN (rid r) excl).
+Qed.
+
+Lemma index_stream_nodup world owner asset base :
+  NoDup (map rid world) -> NoDup (map eid (index_stream world owner asset base)).
+Proof.
+  intros H. eapply Permutation_NoDup.
+  - apply Permutation_map. symmetry. apply index_stream_perm.
+  - rewrite map_eid_to_entry. now apply NoDup_map_filter.
+Qed.
+
+Lemma index_stream_sum world owner asset base :
+  sum_amt (index_stream world owner asset base) <= world_sum world.
+Proof.
+  rewrite (sum_perm _ _ (index_stream_perm world owner asset base)), sum_to_entry. apply wsum_filter.
+Qed.
+
+Lemma AlgSpec_lift world owner asset base target max partial excl adm l :
+  (forall e, In e adm -> Adm world owner asset base excl e) ->
+  AlgSpec adm target max partial l -> SelSpec world owner asset base target max partial excl l.
+Proof.
+  intros Ha (H1 & H2 & H3 & H4). unfold SelSpec. repeat split; try assumption.
+  apply Forall_forall. intros e He. apply Ha. now apply H1.
+Qed.
+
+Theorem indexed_answer_sound_all world owner asset base target max partial excl r l :
+  WF world -> max <= u16max -> ~ MaxZeroClass target max partial ->
+  select_coins_to_spend (index_stream world owner asset base) target max partial excl r = COk l ->
+  SelSpec world owner asset base target max partial excl l.
+Proof.
+  intros [Hnd Hs] Hm Hk H.
+  eapply AlgSpec_lift; [apply index_stream_adm|].
+  eapply indexed_sound_alg; try eassumption.
+  - now apply index_stream_nodup.
+  - pose proof (index_stream_sum world owner asset base). lia.
+Qed.
+
+Theorem indexed_error_only_if_infeasible_all world owner asset base target max partial excl r e :
+  WF world -> max <= u16max -> target <= u128max ->
+  select_coins_to_spend (index_stream world owner asset base) target max partial excl r = CErr e ->
+  (e = 1 \/ e = 2) /\
+  sum_amt (takeN max (filter (ne excl) (rev (index_stream world owner asset base)))) < target /\
+  (partial = true ->
+   sum_amt (takeN max (filter (ne excl) (rev (index_stream world owner asset base)))) = 0).
+Proof.
+  intros [Hnd Hs] Hm Ht H. eapply indexed_error_alg; try eassumption.
+  pose proof (index_stream_sum world owner asset base). lia.
+Qed.
+
+Theorem largest_first_answer_sound_all world owner asset base target max partial excl l :
+  WF world ->
+  largest_first (coins_stream world owner asset base excl) target max partial = COk l ->
+  SelSpec world owner asset base target max partial excl l.
+Proof.
+  intros [Hnd Hs] H. eapply AlgSpec_lift; [apply coins_stream_adm|].
+  apply largest_first_sound_alg; [now apply coins_stream_nodup | | exact H].
+  pose proof (coins_stream_sum world owner asset base excl). lia.
+Qed.
+
+Theorem random_improve_answer_sound_all world owner asset base target max partial excl shuffled l :
+  WF world -> Permutation shuffled (coins_stream world owner asset base excl) ->
+  random_improve (coins_stream world owner asset base excl) shuffled target max partial = COk l ->
+  SelSpec world owner asset base target max partial excl l.
+Proof.
+  intros [Hnd Hs] Hp H. eapply AlgSpec_lift; [apply coins_stream_adm|].
+  eapply random_improve_sound_alg; [exact Hp | now apply coins_stream_nodup | | exact H].
+  pose proof (coins_stream_sum world owner asset base excl). lia.
+Qed.
+
+Theorem nonindexed_error_only_if_infeasible_all world owner asset base target max partial excl shuffled e :
+  WF world ->
+  (largest_first (coins_stream world owner asset base excl) target max partial = CErr e \/
+   random_improve (coins_stream world owner asset base excl) shuffled target max partial = CErr e) ->
+  (e = 1 \/ e = 2) /\
+  topk_sum max (coins_stream world owner asset base excl) < target /\
+  (partial = true -> topk_sum max (coins_stream world owner asset base excl) = 0).
+Proof.
+  intros [Hnd Hs] H. pose proof (coins_stream_sum world owner asset base excl).
+  destruct H as [H|H]; [eapply largest_first_error_alg | eapply random_improve_error_alg]; try exact H; lia.
+Qed.
+
+(* ---------- a descending list: no selection of at most k entries beats its first k ---------- *)
+
+Inductive subseq : list entry -> list entry -> Prop :=
+| sub_nil : subseq [] []
+| sub_skip x s l : subseq s l -> subseq s (x :: l)
+| sub_take x s l : subseq s l -> subseq (x :: s) (x :: l).
+
+Fixpoint desc (l : list entry) : Prop :=
+  match l with
+  | [] => True
+  | x :: tl => Forall (fun y => eamt y <= eamt x) tl /\ desc tl
+  end.
+
+Lemma subseq_in s l : subseq s l -> forall x, In x s -> In x l.
+Proof. induction 1; intros y Hy; [destruct Hy | right; auto | destruct Hy as [->|Hy]; [now left | right; auto]]. Qed.
+
+Lemma subseq_tail x s l : subseq (x :: s) l -> subseq s l.
+Proof.
+  remember (x :: s) as xs eqn:E. intros H. revert x s E.
+  induction H as [|y s' l' H IH|y s' l' H IH]; intros x s E; [discriminate| |].
+  - apply sub_skip. eapply IH. exact E.
+  - inversion E; subst. now apply sub_skip.
+Qed.
+
+Theorem topk_dominates_all l : desc l -> forall s k, subseq s l -> lenN s <= k ->
+  sum_amt s <= sum_amt (takeN k l).
+Proof.
+  induction l as [|x l IH]; intros Hd s k Hs Hk.
+  - inversion Hs; subst. cbn. lia.
+  - destruct Hd as [Hx Hd]. cbn [takeN]. destruct (N.eqb_spec k 0) as [->|Hk0].
+    + destruct s; [cbn; lia | cbn [lenN] in Hk; lia].
+    + rewrite sum_cons. inversion Hs as [|y s' l' Hs'|y s' l' Hs']; subst.
+      * (* x skipped *)
+        destruct s as [|y s']; [cbn; lia|].
+        pose proof (subseq_in _ _ Hs' y ltac:(now left)) as Hy.
+        rewrite Forall_forall in Hx. specialize (Hx y Hy).
+        pose proof (subseq_tail _ _ _ Hs') as Ht. cbn [lenN] in Hk.
+        specialize (IH Hd s' (k - 1) Ht ltac:(lia)). rewrite sum_cons. lia.
+      * cbn [lenN] in Hk. specialize (IH Hd s' (k - 1) Hs' ltac:(lia)). rewrite sum_cons. lia.
+Qed.
+
+(* ---------- the decidable checker ---------- *)
+
+Lemma nodupb_iff l : nodupb l = true <-> NoDup l.
+Proof.
+  induction l as [|x l IH]; cbn [nodupb]; [split; [constructor | reflexivity]|].
+  rewrite andb_true_iff, negb_true_iff, memN_false, IH. split.
+  - intros [H1 H2]. now constructor.
+  - intros H. inversion H; subst. tauto.
+Qed.
+
+Lemma find_res_spec world id r : find_res id world = Some r -> In r world /\ rid r = id.
+Proof.
+  induction world as [|x w IH]; [discriminate|]. cbn [find_res].
+  destruct (N.eqb_spec (rid x) id); [intros E; inversion E; subst; split; [now left | reflexivity]|].
+  intros H. apply IH in H. split; [right|]; tauto.
+Qed.
+
+Lemma find_res_complete world r : NoDup (map rid world) -> In r world -> find_res (rid r) world = Some r.
+Proof.
+  induction world as [|x w IH]; [intros _ []|]. cbn [map find_res]. intros H Hin. inversion H as [|? ? Hn Hd]; subst.
+  destruct Hin as [->|Hin]; [now rewrite N.eqb_refl|].
+  destruct (N.eqb_spec (rid x) (rid r)) as [E|E]; [|now apply IH].
+  exfalso. apply Hn. rewrite E. now apply in_map.
+Qed.
+
+Lemma entry_ok_iff world owner asset base excl e : NoDup (map rid world) ->
+  entry_ok world owner asset base excl e = true <-> Adm world owner asset base excl e.
+Proof.
+  intros Hnd. unfold entry_ok, Adm. split.
+  - destruct (find_res (eid e) world) as [r|] eqn:Ef; [|discriminate].
+    apply find_res_spec in Ef. destruct Ef as [Hin Hid]. rewrite !andb_true_iff, negb_true_iff, N.eqb_eq.
+    intros [[Ha Hx] Hm]. exists r. repeat split; try assumption.
+    unfold to_entry. destruct e as [i a]. cbn [eid eamt fst snd] in *. congruence.
+  - intros (r & Hin & Er & Ha & Hx). subst e. cbn [eid to_entry fst].
+    rewrite (find_res_complete world r Hnd Hin). rewrite Ha, Hx. cbn [eamt snd]. now rewrite N.eqb_refl.
+Qed.
+
+Definition ErrSpec (world : list res) (owner asset base target max : N) (partial : bool)
+           (excl : list N) (e : N) : Prop :=
+  (e = 1 \/ e = 2) /\
+  topk_sum max (admissible world owner asset base excl) < target /\
+  (partial = true -> topk_sum max (admissible world owner asset base excl) = 0).
+
+Definition OutcomeSpec world owner asset base target max partial excl (r : cres) : Prop :=
+  match r with
+  | COk l => SelSpec world owner asset base target max partial excl l
+  | CErr e => ErrSpec world owner asset base target max partial excl e
+  end.
+
+Theorem sel_code_sound_all world owner asset base target max partial excl r :
+  NoDup (map rid world) ->
+  sel_code world owner asset base target max partial excl r = 1 <->
+  OutcomeSpec world owner asset base target max partial excl r.
+Proof.
+  intros Hnd. destruct r as [l|e]; cbn [sel_code OutcomeSpec].
+  - unfold SelSpec.
+    destruct (forallb (entry_ok world owner asset base excl) l) eqn:E1; cbn [negb].
+    2:{ split; [discriminate|]. intros (H & _). exfalso.
+        assert (forallb (entry_ok world owner asset base excl) l = true); [|congruence].
+        apply forallb_forall. rewrite Forall_forall in H. intros x Hx. apply entry_ok_iff; auto. }
+    assert (F1 : Forall (Adm world owner asset base excl) l).
+    { apply Forall_forall. intros x Hx. rewrite forallb_forall in E1. apply entry_ok_iff; auto. }
+    destruct (nodupb (map eid l)) eqn:E2; cbn [negb].
+    2:{ split; [discriminate|]. intros (_ & H & _). apply nodupb_iff in H. congruence. }
+    apply nodupb_iff in E2.
+    destruct (N.leb_spec (lenN l) max) as [Hle|Hgt]; cbn [negb]; [|split; [discriminate | intros (_ & _ & H3 & _); lia]].
+    destruct (partial || (target <=? sum_amt l)) eqn:E4; cbn [negb].
+    + split; [intros _|reflexivity]. repeat split; try assumption.
+      intros Hp. subst partial. cbn [orb] in E4. lia.
+    + split; [discriminate|]. intros (_ & _ & _ & H). apply orb_false_iff in E4. destruct E4 as [Hp E4].
+      specialize (H Hp). lia.
+  - unfold ErrSpec. set (best := topk_sum max (admissible world owner asset base excl)).
+    destruct ((e =? 1) || (e =? 2)) eqn:E1; cbn [negb].
+    2:{ split; [discriminate|]. intros ([H|H] & _); subst; discriminate. }
+    assert (He : e = 1 \/ e = 2) by (apply orb_true_iff in E1; destruct E1; [left | right]; lia).
+    destruct ((best <? target) && (negb partial || (best =? 0))) eqn:E2.
+    + split; [intros _|reflexivity]. apply andb_true_iff in E2. destruct E2 as [E2 E3].
+      split; [exact He|]. split; [lia|]. intros Hp. subst partial. cbn [negb orb] in E3. lia.
+    + split; [discriminate|]. intros (_ & H1 & H2). apply andb_false_iff in E2. destruct E2 as [E2|E2]; [lia|].
+      apply orb_false_iff in E2. destruct E2 as [Hp E2]. apply negb_false_iff in Hp. specialize (H2 Hp). lia.
+Qed.
+
+(* ---------- the max = 0 class; non-vacuity ---------- *)
+
+Theorem indexed_max_zero_witness :
+  exists world owner asset base target max partial excl r l,
+    WF world /\ max <= u16max /\
+    select_coins_to_spend (index_stream world owner asset base) target max partial excl r = COk l /\
+    ~ SelSpec world owner asset base target max partial excl l.
+Proof.
+  exists [mkRes 1 0 1 0 10 false], 1, 0, 0, 5, 0, false, [], 0, [].
+  split; [split; [repeat constructor; intros [] | vm_compute; discriminate]|].
+  split; [vm_compute; discriminate|]. split; [reflexivity|].
+  intros (_ & _ & _ & H). specialize (H eq_refl). vm_compute in H. now apply H.
+Qed.
+
+Example c37_nonvacuous :
+  let world := [mkRes 1 0 1 0 1 false; mkRes 2 0 1 0 1 false; mkRes 3 0 1 0 5 false;
+                mkRes 4 1 1 0 8 false; mkRes 5 1 1 0 9 true; mkRes 6 0 2 0 100 false;
+                mkRes 7 0 1 0 10 false] in
+  nodupb (map rid world) = true /\
+  select_coins_to_spend (index_stream world 1 0 0) 3 4 false [7] 3 = COk [(4, 8); (1, 1); (2, 1); (3, 5)] /\
+  select_coins_to_spend (index_stream world 1 0 0) 6 4 false [7] 0 = COk [(4, 8); (3, 5)] /\
+  largest_first (coins_stream world 1 0 0 [7]) 12 2 false = COk [(4, 8); (3, 5)] /\
+  largest_first (coins_stream world 1 0 0 [7]) 14 2 false = CErr 2 /\
+  random_improve (coins_stream world 1 0 0 [7]) [(1, 1); (3, 5); (2, 1); (4, 8)] 6 3 false
+    = COk [(1, 1); (3, 5); (2, 1)].
+Proof. vm_compute. repeat split; reflexivity. Qed.
